@@ -30,6 +30,9 @@
     * a drop of `m` leaves the other measurements untouched and adds nothing; once
       it has removed the fields of `m` from the record, no restart brings a field of
       `m` back (until a later write mentions `m` again);
+    * two writers racing (on a new field, say): neither fails hard, no recorded type
+      changes, and every writer that is told `ok` finds all its field types on record
+      afterwards — so racing writers with different types cannot both succeed;
     * operations that only look (schema dump, read, snapshot) change nothing.
 -/
 import Influx.Proto
@@ -82,6 +85,14 @@ def carries (batch : List Point) (k : FKey) (t : FType) : Bool :=
   batch.any (fun p => p.meas == k.1 && p.fields.any (fun f => f.name == k.2 && f.ty == t && f.name != timeName))
 
 def storeOf (a : Seen) : Store := a.store.getD []
+
+/-- all (non-`time`) field types of the batch are on record in `s` -/
+def allOnRecord (s : Schema) (batch : List Point) : Bool :=
+  batch.all (fun p => p.fields.all (fun f => f.name == timeName || s.lookup (p.meas, f.name) == some f.ty))
+
+def hardErrorOf : WriteRes → Option String
+  | .hardError e => some ("write-hard-error:" ++ e)
+  | _ => none
 
 def stepFails (M : Mem) : Step10 → Option String × Mem
   | .write batch res after =>
@@ -140,6 +151,15 @@ def stepFails (M : Mem) : Step10 → Option String × Mem
     let r := r.or (if subSchema after.sch M.cur.sch then none else some "torn-restart-invented-type:drop")
     let r := r.or (if sameStore ((storeOf M.cur).filter (fun e => e.1.1 != m)) (storeOf after) then none
                    else some "restart-data-changed:torn-drop")
+    (r, M')
+  | .race a b ra rb after =>
+    let M' : Mem := { cur := after,
+                      dropped := M.dropped.filter (fun m => !(a ++ b).any (fun p => p.meas == m)) }
+    let r := (hardErrorOf ra).or (hardErrorOf rb)
+    let r := r.or (seenFails after)
+    let r := r.or (if subSchema M.cur.sch after.sch then none else some "field-type-changed:race")
+    let r := r.or (if (ra == .ok && !allOnRecord after.sch a) || (rb == .ok && !allOnRecord after.sch b)
+                   then some "race-ok-writer-not-on-record:" else none)
     (r, M')
   | .look after =>
     let r := seenFails after
